@@ -320,6 +320,72 @@ func generate(emit func(caseIn)) {
 		}
 	}
 
+	// 6b. LARGE error bodies: a DAV:error document padded to sizes around and beyond 1 KiB,
+	//     4 KiB and 64 KiB in every way a server can make it long (white space, comments, long
+	//     text, many children, before / inside / after the condition elements), for every status
+	//     class; the error must carry all condition elements whatever the size.  The same
+	//     padding on multi-status answers (as 207 and as error body) and on text/plain error
+	//     bodies (where keeping only 1 KiB of text is the specified behaviour).
+	smallSizes := []int{900, 1000, 1023, 1024, 1025, 1100, 2048, 4095, 4096, 4097, 5000}
+	hugeSizes := []int{65535, 65536, 65537, 70000}
+	errStatuses := []int{100, 301, 403, 404, 423, 500, 507, 599}
+	errMethods := []string{"Mkdir", "Stat", "PutCalendarObject", "SyncCollection", "GetAddressObject"}
+	if thorough {
+		errMethods = methods
+	}
+	xmlCTs := []*string{sp("application/xml"), sp("text/xml; charset=utf-8")}
+	for k := 0; k < nBigKinds; k++ {
+		for _, size := range smallSizes {
+			body := bigError(k, size)
+			for _, st := range errStatuses {
+				for _, ct := range xmlCTs {
+					for _, m := range errMethods {
+						c := base(m, st)
+						c.r.ct = ct
+						c.r.body = body
+						emit(c)
+					}
+				}
+			}
+		}
+		for _, size := range hugeSizes {
+			body := bigError(k, size)
+			for _, st := range []int{423, 507} {
+				for _, m := range []string{"Mkdir", "ReadDir"} {
+					c := base(m, st)
+					c.r.ct = sp("application/xml")
+					c.r.body = body
+					emit(c)
+				}
+			}
+		}
+	}
+	for _, size := range append(append([]int{}, smallSizes...), hugeSizes[2]) {
+		// text error bodies; and the method's own multi-status, padded, as 207 and as an error body
+		for _, st := range errStatuses {
+			for _, m := range []string{"Mkdir", "Stat", "GetCalendarObject"} {
+				c := base(m, st)
+				c.r.ct = sp("text/plain; charset=utf-8")
+				c.r.body = strings.Repeat("error text ", size/11+1)[:size]
+				emit(c)
+			}
+		}
+		for _, m := range methods {
+			if !minfo[m].ms {
+				continue
+			}
+			for k := 0; k < 4; k++ {
+				body := padDoc(docs[minfo[m].home].render(), k, size)
+				for _, st := range []int{207, 403} {
+					c := base(m, st)
+					c.r.ct = sp("application/xml")
+					c.r.body = body
+					emit(c)
+				}
+			}
+		}
+	}
+
 	// 7. seeded random cases
 	rng := hx.NewRand(hx.Seed())
 	nRandom, nMalformed := 40000, 15000
@@ -366,6 +432,14 @@ func generate(emit func(caseIn)) {
 			if strings.HasPrefix(mi.home, "raw:") && rng.Chance(2, 3) {
 				dn = ""
 			}
+		}
+		if c.r.status/100 != 2 && rng.Chance(1, 3) {
+			// a failing status with a (possibly large) DAV:error body
+			sizes := []int{200, 900, 1024, 1025, 1500, 3000, 4097, 9000}
+			c.r.body = bigError(rng.Intn(nBigKinds), sizes[rng.Intn(len(sizes))])
+			c.r.ct = xmlCTs[rng.Intn(len(xmlCTs))]
+			emit(c)
+			continue
 		}
 		if dn != "" {
 			doc := docs[dn]
@@ -427,5 +501,82 @@ func generate(emit func(caseIn)) {
 		}
 		c.r.body = string(b)
 		emit(c)
+	}
+}
+
+// ---- large documents
+
+const nBigKinds = 9
+
+const xmlDecl = `<?xml version="1.0" encoding="utf-8"?>`
+
+// bigError returns a DAV:error document of roughly the given size whose condition elements
+// are <D:lock-token-submitted> (with hrefs) and <C:valid-calendar-data/>, <D:no-conflicting-lock/>;
+// kind says where the bulk is.
+func bigError(kind, size int) string {
+	open := `<D:error xmlns:D="DAV:" xmlns:C="urn:ietf:params:xml:ns:caldav">`
+	conds := `<D:lock-token-submitted><D:href>/dir/locked</D:href></D:lock-token-submitted><C:valid-calendar-data/><D:no-conflicting-lock/>`
+	end := `</D:error>`
+	pad := func(n int) int {
+		if n < 1 {
+			return 1
+		}
+		return n
+	}
+	fixed := len(xmlDecl) + len(open) + len(conds) + len(end)
+	n := pad(size - fixed)
+	spaces := strings.Repeat(" \n", n/2+1)[:n]
+	comment := "<!--" + strings.Repeat("c", pad(n-7)) + "-->"
+	switch kind {
+	case 0: // white space before the root
+		return xmlDecl + spaces + open + conds + end
+	case 1: // comment before the root
+		return xmlDecl + comment + open + conds + end
+	case 2: // white space inside, before the conditions
+		return xmlDecl + open + spaces + conds + end
+	case 3: // comment inside, before the conditions
+		return xmlDecl + open + comment + conds + end
+	case 4: // comment between the conditions
+		return xmlDecl + open + `<D:lock-token-submitted><D:href>/dir/locked</D:href></D:lock-token-submitted>` + comment + `<C:valid-calendar-data/><D:no-conflicting-lock/>` + end
+	case 5: // many hrefs in the first condition
+		var b strings.Builder
+		b.WriteString(xmlDecl + open + `<D:lock-token-submitted>`)
+		for i := 0; b.Len() < size-len(end)-80; i++ {
+			fmt.Fprintf(&b, "<D:href>/dir/locked/%06d</D:href>", i)
+		}
+		b.WriteString(`</D:lock-token-submitted><C:valid-calendar-data/><D:no-conflicting-lock/>` + end)
+		return b.String()
+	case 6: // one long text
+		return xmlDecl + open + `<D:lock-token-submitted><D:href>/dir/` + strings.Repeat("a", n) + `</D:href></D:lock-token-submitted><C:valid-calendar-data/><D:no-conflicting-lock/>` + end
+	case 7: // many condition elements
+		var b strings.Builder
+		b.WriteString(xmlDecl + open)
+		for i := 0; b.Len() < size-len(end)-len(conds); i++ {
+			fmt.Fprintf(&b, "<D:need-privileges><D:resource><D:href>/r/%d</D:href><D:privilege><D:read/></D:privilege></D:resource></D:need-privileges>", i)
+		}
+		b.WriteString(conds + end)
+		return b.String()
+	default: // the bulk after the root element (never looked at)
+		return xmlDecl + open + conds + end + spaces + comment
+	}
+}
+
+// padDoc inserts padding of the given size into a rendered document (which starts with xmlDecl).
+func padDoc(doc string, kind, size int) string {
+	n := size - len(doc)
+	if n < 8 {
+		n = 8
+	}
+	rest := doc[len(xmlDecl):]
+	gt := strings.IndexByte(rest, '>') + 1 // end of the root start tag
+	switch kind {
+	case 0:
+		return xmlDecl + strings.Repeat(" ", n) + rest
+	case 1:
+		return xmlDecl + "<!--" + strings.Repeat("c", n-7) + "-->" + rest
+	case 2:
+		return xmlDecl + rest[:gt] + strings.Repeat("\n", n) + rest[gt:]
+	default:
+		return xmlDecl + rest[:gt] + "<!--" + strings.Repeat("c", n-7) + "-->" + rest[gt:]
 	}
 }
